@@ -19,6 +19,15 @@ NOTES = {
     "C19-m2": "caught after script location `inputref` (script carried by a spent input's output) was added",
     "C13-m3": "caught after `aiken fmt` in place (format_files) was added to the check",
     "C13-m2": "caught after comments inside multi-line record constructors were generated",
+    "C02-m5": "NOT CAUGHT: needs two BLS12-381 point constants that are negations of each other in one program; no generator produces BLS constants (declared gap)",
+    "C01-m4": "round 2; missed by the first generics family (the type variable itself must be a list in one use and a pair-list in another); caught after those instantiations were added",
+    "C06-m4": "round 2; missed until typing rules across modules were checked on multi-module projects",
+    "C06-m5": "round 2; caught once the String type existed in the generator (added while this round was running)",
+    "C09-m5": "round 2; missed until builds with every type exported were compared",
+    "C09-m6": "round 2; missed by a cycle whose dependencies are themselves recursive; caught after a cycle calling two plain hoisted functions was added",
+    "C14-m5": "round 2; caught by the strictness family (expect on a discard), added while this round was running",
+    "C02-m6": "round 2; caught by the strictness family (zero-argument functions), added while this round was running",
+    "C02-m4": "round 2; and / or / xor on byte arrays with a non-constant flag: family added while this round was running",
     "C07-m2": "ported onto the repaired ListSwitch code (patch_original.diff is the agent's patch against the code before fix 8a035ae)",
     "C03-m1": "missed until the `closure` profile was added to MC_Cek",
     "C04-m3": "missed until builtin chains (group `chains`) and 64-bit boundary integers were added",
